@@ -18,7 +18,7 @@ Not decided: optimality of the grouping, GCTM moment accuracy, non-negativity.
 import ast
 from fractions import Fraction as Fr
 
-from ..common import get_index, nf, same_value
+from ..common import get_index, nf, same_value, purity_obligations
 from ..interp import Interp, has_unknown, RangeVal
 from ..plf import Rat, Sym, Fn, find_atoms, rpow
 from ..report import AnalysisError
@@ -155,6 +155,11 @@ def run(rep, tier, root=None):
     allocs = [c for c in I.call_log if c[0] == f.fq and c[1].split(".")[-1] in ("zeros", "empty", "ones")]
     rep.check(len(allocs) >= 2 and all(c[2] and same_value(c[2][0], L) for c in allocs), "E1.allocation",
               f.fq + ": outputs allocated with L elements", "allocations: %s" % [(c[1], nf(c[2][0]) if c[2] else None) for c in allocs], f.where())
+    from .c14 import _is_float_dtype
+    typed = [a for a in I.alloc_log if a[0] == f.fq and "dtype" in a[3] and not _is_float_dtype(a[3]["dtype"])]
+    rep.check(not typed, "E1.allocation-dtype", f.fq + ": outputs are floating-point arrays",
+              "output arrays are allocated with dtype %s: effective heights / winds (fractional powers of weighted means) and strengths "
+              "are truncated on assignment when the input profile is given as integers" % [repr(a[3]["dtype"])[:40] for a in typed], f.where())
     for name, s in sorted(stores.items()):
         ok, why = coverage(s[2], lv, rng, L)
         if ok is None:
@@ -214,6 +219,9 @@ def run(rep, tier, root=None):
                         body_ok = True
     rep.check(body_ok, "E2.group-sums", og.fq + ": strength of group == p[group].sum()",
               "optimal_grouping does not return the plain sum of p over each group", og.where())
+    # ---- E3 no state survives a call (random restarts may use NumPy's global generator, which the property allows)
+    purity_obligations(rep, ix, list(m.funcs.values()), "E3.no-hidden-state",
+                       "a later compression optimises against values cached from an earlier profile")
     rep.floor("C18 obligations", len(rep.obligations), 12)
 
 
